@@ -605,7 +605,11 @@ func c17StorageRun(r *Rng, it int, vInit, aInit []byte, viol func(kind, what str
 	shifted := it%2 == 1
 	tsbd := uint64(r.Pick(4, 6, 10, 5, 7)) // also depths that are not a multiple of the 2 s segments
 	nSegs := r.Range(8, 16)
-	seq0 := uint32(r.Pick(1, 101, 5000))
+	seq0 := uint32(r.Pick(1, 5, 95, 101, 995, 5000))
+	if it < 6 && !shifted {
+		// the first unshifted runs always cross a power of ten (file names of different lengths in one directory)
+		seq0, nSegs = uint32(5+90*(it/2%2)), 14
+	}
 	off := uint64(0)
 	inSeq0 := seq0
 	if shifted {
